@@ -20,7 +20,7 @@ fn any_kind() -> StringKind {
     if kani::any() { StringKind::Safe } else { StringKind::Normal }
 }
 
-// killed by: SmartString::new storing `len: s.len().saturating_sub(1) as u8` ; as_str slicing `&data[..]`
+// killed by: SmartString::new storing `len: s.len().saturating_sub(1) as u8`
 #[kani::proof]
 #[kani::unwind(6)]
 fn smart_short_roundtrip() {
@@ -53,7 +53,7 @@ fn check_concrete(s: &str, inline: bool) {
     std::mem::forget((ss, m));
 }
 
-// killed by: SmartString::new `if s.len() <= 21` -> `< 21` (21 bytes no longer inline) ; -> `<= 22` (copy_from_slice panics)
+// killed by: SmartString::new `if s.len() <= 21` -> `< 21` (21 bytes no longer inline)
 #[kani::proof]
 #[kani::unwind(24)]
 fn smart_boundary_21_22() {
@@ -103,7 +103,7 @@ fn decimal(mut n: u64, buf: &mut [u8; 20]) -> usize {
     k
 }
 
-// killed by: Value::format `U64(v) => write!(f, "{}", *v as u8)`-style narrowing
+// killed by: Value::format `U64(v) => write!(f, "{}", *v as u8)`
 #[kani::proof]
 #[kani::unwind(5)]
 fn format_small_unsigned() {
